@@ -198,8 +198,8 @@ def run_state_case(case):
             return {'fails': [], 'n': 0, 'nontrivial': False}
         S = o.result
     v = rt.view(S)
-    if not ou.finite(v):
-        return {'fails': [], 'n': 0, 'nontrivial': False}
+    if not ou.finite(v) or 0 in v.A.shape or rt.inv(S):
+        return {'fails': [], 'n': 0, 'nontrivial': False}     # the prior history left the domain (non-empty, finite)
     fails, n, seen = [], 0, set()
     ops = ops_for(v)
     if 'only_ops' in case:
